@@ -155,10 +155,14 @@ class World:
             self._owner = {id(v[0]): k[0] for k, v in self.methods.items()}
             self._ty_stack = []
         self._ty_stack.append(self._owner.get(id(fn)))
+        if not hasattr(self, "_ret_stack"):
+            self._ret_stack = []
+        self._ret_stack.append(str((fn.get("sig") or {}).get("output") or ""))
         try:
             return self._call_fn(fn, args)
         finally:
             self._ty_stack.pop()
+            self._ret_stack.pop()
 
     def _call_fn(self, fn, args):
         self.depth += 1
